@@ -547,10 +547,16 @@ func (runInfo *runInfoStruct) runForMapStmt(stmt *ast.ForStmt, value reflect.Val
 		default:
 		}
 
+		mapValue := value.MapIndex(keys[i])
+		if !mapValue.IsValid() {
+			// the entry was deleted by an earlier iteration: as in Go, it is not produced
+			continue
+		}
+
 		runInfo.env.DefineValue(stmt.Vars[0], keys[i])
 
 		if len(stmt.Vars) > 1 {
-			runInfo.env.DefineValue(stmt.Vars[1], value.MapIndex(keys[i]))
+			runInfo.env.DefineValue(stmt.Vars[1], mapValue)
 		}
 
 		runInfo.stmt = stmt.Stmt
